@@ -1,2 +1,818 @@
-// Package c03: monitor for property C03 (see DESIGN.md section 2).
+// Package c03: crash durability. Real synced workloads are run with a file-system
+// journal (verifhook FS events) plus ack/issued markers; crash images are
+// materialized at journal indexes under three loss models; on every image the
+// store is reopened in a fresh child and the recovery obligations R1..R6 checked.
 package c03
+
+import (
+	"bytes"
+	"context"
+	"crypto/sha256"
+	"encoding/gob"
+	"encoding/json"
+	"errors"
+	"fmt"
+	"math/rand/v2"
+	"os"
+	"path/filepath"
+	"sort"
+	"strings"
+	"sync"
+	"sync/atomic"
+	"syscall"
+	"time"
+
+	"github.com/codenotary/immudb/embedded/logger"
+	"github.com/codenotary/immudb/embedded/store"
+
+	"verifharness/internal/fsjournal"
+	"verifharness/internal/fw"
+	"verifharness/internal/hook"
+	"verifharness/internal/ledger"
+	"verifharness/internal/sth"
+)
+
+func init() { fw.RegisterMonitor("C03", "fault_enumeration", Run) }
+
+type traceCfg struct {
+	Name       string
+	Seed       int64
+	Embedded   bool
+	HdrVersion int
+	IOConc     int
+	MaxActive  int
+	FileSize   int
+	WriteBuf   int
+	Committers int
+	Txs        int
+	ExtAllow   bool
+	Compact    bool
+	Reopen     bool
+	FaultEvery int // >0: every n-th fsync/write at the fault sites fails (fault tier)
+	Dir        string
+}
+
+func (cf traceCfg) options() *store.Options {
+	o := sth.SmallOpts().
+		WithSynced(true).WithSyncFrequency(500 * time.Microsecond).
+		WithEmbeddedValues(cf.Embedded).
+		WithWriteTxHeaderVersion(cf.HdrVersion).
+		WithMaxIOConcurrency(cf.IOConc).WithMaxConcurrency(8).
+		WithMaxActiveTransactions(cf.MaxActive).
+		WithFileSize(cf.FileSize).WithWriteBufferSize(cf.WriteBuf).
+		WithMaxTxEntries(8).WithMaxKeyLen(32).WithMaxValueLen(300).
+		WithTxLogCacheSize(4)
+	o.WithIndexOptions(o.IndexOpts.WithCompactionThld(1).WithFlushThld(20).WithSyncThld(40).WithMaxNodeSize(512).WithCacheSize(32))
+	o.WithAHTOptions(o.AHTOpts.WithSyncThld(16))
+	return o
+}
+
+type traceFiles struct {
+	Cfg    traceCfg
+	Ledger []*ledger.Rec
+}
+
+var errInjected = fmt.Errorf("injected I/O error: %w", syscall.EIO)
+
+// ---- trace generation (child) ----
+
+func genTrace(c *fw.Ctx, data []byte) {
+	var cf traceCfg
+	json.Unmarshal(data, &cf)
+	os.RemoveAll(cf.Dir)
+	os.MkdirAll(cf.Dir, 0o755)
+	storeDir := filepath.Join(cf.Dir, "store")
+	j := hook.NewJournal()
+	var faultN atomic.Uint64
+	h := hook.Install(&hook.Config{Seed: cf.Seed, Perturb: 0.2, MaxSleep: 200 * time.Microsecond, Journal: j,
+		OnNote: func(site string, a, b uint64, hh [32]byte) {
+			if site == "store.issued" {
+				j.Mark("issued", a, hh)
+			}
+		},
+		FaultFn: func(site string, n uint64) error {
+			if cf.FaultEvery > 0 && faultN.Add(1)%uint64(cf.FaultEvery) == 0 {
+				return errInjected
+			}
+			return nil
+		}})
+	defer hook.Uninstall()
+	led := ledger.New()
+	st, err := store.Open(storeDir, cf.options())
+	if err != nil {
+		c.Inconclusive("trace open: " + err.Error())
+		return
+	}
+	if cf.ExtAllow {
+		st.SetExternalCommitAllowance(true)
+	}
+	var keySeq atomic.Uint64
+	rounds := 2
+	if cf.Reopen {
+		rounds = 3
+	}
+	for round := 0; round < rounds; round++ {
+		var wg sync.WaitGroup
+		var left atomic.Int64
+		left.Store(int64(cf.Txs / rounds))
+		stop := make(chan struct{})
+		for g := 0; g < cf.Committers; g++ {
+			wg.Add(1)
+			go func(g int) {
+				defer wg.Done()
+				r := fw.NewRand(cf.Seed, fmt.Sprintf("c03/%s/r%d/g%d", cf.Name, round, g))
+				for left.Add(-1) >= 0 {
+					ctx, cancel := context.WithTimeout(context.Background(), 20*time.Second)
+					n := 1 + r.IntN(4)
+					es := make([]ledger.Entry, 0, n)
+					seen := map[string]bool{}
+					for len(es) < n {
+						k := fmt.Sprintf("k%02d", r.IntN(16))
+						if r.IntN(4) == 0 {
+							k = fmt.Sprintf("u%d-%d", g, keySeq.Add(1))
+						}
+						if seen[k] {
+							continue
+						}
+						seen[k] = true
+						v := make([]byte, []int{0, 3, 20, 120, 280}[r.IntN(5)])
+						for i := range v {
+							v[i] = byte('a' + r.IntN(26))
+						}
+						es = append(es, ledger.Entry{Key: []byte(k), Value: v, MD: ledger.MDBytes(kvmd(r, cf.HdrVersion))})
+					}
+					tx, err := st.NewWriteOnlyTx(ctx)
+					if err == nil {
+						for _, e := range es {
+							tx.Set(e.Key, mdOf(e.MD), e.Value)
+						}
+						var hdr *store.TxHeader
+						hdr, err = tx.Commit(ctx)
+						if err == nil {
+							if e := led.Ack(hdr, es); e != nil {
+								c.Violation("trace/ack-id-reassigned", e.Error(), nil)
+							}
+							j.Mark("ack", hdr.ID, hdr.Alh())
+						}
+					}
+					if err != nil {
+						c.Count("trace_commit_errors", 1)
+					}
+					cancel()
+				}
+			}(g)
+		}
+		var bg sync.WaitGroup
+		bg.Add(1)
+		go func() {
+			defer bg.Done()
+			r := fw.NewRand(cf.Seed, fmt.Sprintf("c03/%s/r%d/maint", cf.Name, round))
+			for {
+				select {
+				case <-stop:
+					return
+				default:
+				}
+				switch r.IntN(4) {
+				case 0:
+					st.FlushIndexes(float32(r.IntN(101)), r.IntN(2) == 0)
+				case 1:
+					if cf.Compact {
+						st.CompactIndexes()
+					}
+				case 2:
+					st.Sync()
+				}
+				if cf.ExtAllow {
+					// allow with a lag so that a precommitted-but-uncommitted backlog exists
+					if p := st.LastPrecommittedTxID(); p > uint64(r.IntN(3)) {
+						st.AllowCommitUpto(p - uint64(r.IntN(3)))
+					}
+				}
+				time.Sleep(time.Duration(100+r.IntN(400)) * time.Microsecond)
+			}
+		}()
+		wg.Wait()
+		close(stop)
+		bg.Wait()
+		if cf.ExtAllow {
+			st.AllowCommitUpto(st.LastPrecommittedTxID())
+		}
+		if round < rounds-1 && cf.Reopen {
+			j.Mark("close-begin", 0, [32]byte{})
+			st.Close()
+			j.Mark("close-end", 0, [32]byte{})
+			st, err = store.Open(storeDir, cf.options())
+			if err != nil {
+				c.Violation("trace/reopen-failed", fmt.Sprintf("[%s] reopen after a clean close failed: %v", cf.Name, err), nil)
+				return
+			}
+			if cf.ExtAllow {
+				st.SetExternalCommitAllowance(true)
+			}
+			j.Mark("reopened", 0, [32]byte{})
+		}
+	}
+	j.Mark("close-begin", 0, [32]byte{})
+	st.Close()
+	j.Mark("close-end", 0, [32]byte{})
+	tr := fsjournal.Relativize(j.Events(), storeDir)
+	if err := tr.Save(filepath.Join(cf.Dir, "trace.gob")); err != nil {
+		c.Inconclusive("save trace: " + err.Error())
+		return
+	}
+	tf := traceFiles{Cfg: cf}
+	for _, id := range led.IDs() {
+		tf.Ledger = append(tf.Ledger, led.Get(id))
+	}
+	f, _ := os.Create(filepath.Join(cf.Dir, "ledger.gob"))
+	gob.NewEncoder(f).Encode(&tf)
+	f.Close()
+	os.RemoveAll(storeDir)
+	kinds := map[string]int{}
+	for _, e := range tr.Events {
+		k := e.Op.String()
+		if e.Op == hook.OpMark {
+			k = "mark:" + e.Kind
+		}
+		kinds[k]++
+	}
+	c.Set("trace_"+cf.Name, map[string]any{"events": len(tr.Events), "acks": led.Len(), "kinds": kinds})
+	c.Count("trace_events", int64(len(tr.Events)))
+	c.Count("trace_acks", int64(led.Len()))
+	_ = h
+}
+
+var mdCands = func() []*store.KVMetadata {
+	a := store.NewKVMetadata()
+	a.AsDeleted(true)
+	b := store.NewKVMetadata()
+	b.ExpiresAt(time.Date(2100, 1, 1, 0, 0, 0, 0, time.UTC))
+	d := store.NewKVMetadata()
+	d.ExpiresAt(time.Date(2001, 1, 1, 0, 0, 0, 0, time.UTC))
+	e := store.NewKVMetadata()
+	e.AsNonIndexable(true)
+	return []*store.KVMetadata{a, b, d, e}
+}()
+
+func kvmd(r *rand.Rand, ver int) *store.KVMetadata {
+	if ver == 0 || r.IntN(3) > 0 {
+		return nil
+	}
+	return mdCands[r.IntN(len(mdCands))]
+}
+
+func mdOf(b []byte) *store.KVMetadata {
+	for _, m := range mdCands {
+		if bytes.Equal(m.Bytes(), b) && b != nil {
+			return m
+		}
+	}
+	return nil
+}
+
+// ---- image checking (child) ----
+
+type imgCase struct {
+	Trace string // directory with trace.gob / ledger.gob
+	P     int
+	Model int
+	Seed  uint64
+	Deep  bool
+	Slow  bool // solo re-run of a case whose first run hit a time limit: limits ×10
+}
+
+type loaded struct {
+	tr     *fsjournal.Trace
+	tf     traceFiles
+	recs   map[uint64]*ledger.Rec
+	issued map[uint64]map[[32]byte]int // id -> alh -> first journal index
+	acks   []ackMark
+}
+
+type ackMark struct {
+	idx int
+	id  uint64
+	alh [32]byte
+}
+
+var cache sync.Map
+
+func load(dir string) (*loaded, error) {
+	if v, ok := cache.Load(dir); ok {
+		return v.(*loaded), nil
+	}
+	tr, err := fsjournal.Load(filepath.Join(dir, "trace.gob"))
+	if err != nil {
+		return nil, err
+	}
+	l := &loaded{tr: tr, recs: map[uint64]*ledger.Rec{}, issued: map[uint64]map[[32]byte]int{}}
+	f, err := os.Open(filepath.Join(dir, "ledger.gob"))
+	if err != nil {
+		return nil, err
+	}
+	defer f.Close()
+	if err := gob.NewDecoder(f).Decode(&l.tf); err != nil {
+		return nil, err
+	}
+	for _, r := range l.tf.Ledger {
+		l.recs[r.ID] = r
+	}
+	for i, e := range tr.Events {
+		if e.Op != hook.OpMark {
+			continue
+		}
+		switch e.Kind {
+		case "issued":
+			if l.issued[e.ID] == nil {
+				l.issued[e.ID] = map[[32]byte]int{}
+			}
+			if _, ok := l.issued[e.ID][e.Hash]; !ok {
+				l.issued[e.ID][e.Hash] = i
+			}
+		case "ack":
+			l.acks = append(l.acks, ackMark{i, e.ID, e.Hash})
+		}
+	}
+	cache.Store(dir, l)
+	return l, nil
+}
+
+type imgResult struct {
+	TimedOut bool // some step hit its (generous) time limit: decided only by a solo re-run
+	Problems []ledger.Problem
+	Info     fsjournal.Info
+	Branch   string // recovery shape observed
+	Acked    int
+	Frontier uint64
+	Err      string
+}
+
+func checkImage(scratch string, i int, data []byte) []byte {
+	var ic imgCase
+	json.Unmarshal(data, &ic)
+	res := imgResult{}
+	defer func() {}()
+	l, err := load(ic.Trace)
+	if err != nil {
+		res.Err = "load: " + err.Error()
+		b, _ := json.Marshal(res)
+		return b
+	}
+	dir := filepath.Join(scratch, fmt.Sprintf("img%d", i))
+	os.RemoveAll(dir)
+	defer os.RemoveAll(dir)
+	r := rand.New(rand.NewPCG(ic.Seed, uint64(ic.P)))
+	info, err := fsjournal.Materialize(l.tr, ic.P, fsjournal.Model(ic.Model), r, dir)
+	res.Info = info
+	if err != nil {
+		res.Err = "materialize: " + err.Error()
+		b, _ := json.Marshal(res)
+		return b
+	}
+	res.Problems, res.Branch, res.Acked, res.Frontier = recoverAndCheck(l, ic, dir)
+	for _, p := range res.Problems {
+		if strings.Contains(p.Detail, "deadline exceeded") {
+			res.TimedOut = true
+		}
+	}
+	b, _ := json.Marshal(res)
+	return b
+}
+
+func recoverAndCheck(l *loaded, ic imgCase, dir string) (ps []ledger.Problem, branch string, nacked int, frontier uint64) {
+	transient := 0
+	defer func() {
+		if transient > 0 {
+			branch += "/transient-read-error"
+		}
+	}()
+	add := func(sig, f string, a ...any) { ps = append(ps, ledger.Problem{Sig: sig, Detail: fmt.Sprintf(f, a...)}) }
+	// acknowledgements that happened before the crash point
+	var acked []ackMark
+	for _, a := range l.acks {
+		if a.idx < ic.P {
+			acked = append(acked, a)
+		}
+	}
+	nacked = len(acked)
+	var lastAck uint64
+	for _, a := range acked {
+		if a.id > lastAck {
+			lastAck = a.id
+		}
+	}
+	opts := l.tf.Cfg.options()
+	if os.Getenv("VERIF_C03_VERBOSE") != "" {
+		opts.WithLogger(logger.NewSimpleLoggerWithLevel("c03", os.Stderr, logger.LogDebug))
+	}
+	st, err := store.Open(dir, opts)
+	if err != nil {
+		add("R1/open-failed", "store does not reopen on the crash image: %v", err)
+		return ps, "open-failed", nacked, 0
+	}
+	defer st.Close()
+	if l.tf.Cfg.ExtAllow {
+		st.SetExternalCommitAllowance(true)
+	}
+	// precommitted txs found in the tx log are committed by the store on its own after open: let that
+	// settle (bounded) so that the frontier is read once it is stable
+	pre := st.LastPrecommittedTxID()
+	pre0, comm0 := pre, st.LastCommittedTxID()
+	if !l.tf.Cfg.ExtAllow && pre > comm0 {
+		wctx, wcancel := context.WithTimeout(context.Background(), 30*time.Second)
+		st.WaitForTx(wctx, pre, false)
+		wcancel()
+	}
+	n := st.LastCommittedTxID()
+	pre = st.LastPrecommittedTxID()
+	frontier = n
+	_ = pre0
+	branch = fmt.Sprintf("committed%+d-precommitted%+d", sgn(int64(comm0)-int64(lastAck)), sgn(int64(pre0)-int64(comm0)))
+	// R3 frontier
+	if n < lastAck {
+		add("R2/acknowledged-tx-lost", "recovered committed frontier %d is below the last acknowledged tx %d", n, lastAck)
+	}
+	tx := store.NewTx(8, 32)
+	hdrs := make([]*store.TxHeader, n)
+	for id := uint64(1); id <= n; id++ {
+		err := st.ReadTx(id, false, tx)
+		for try := 0; err != nil && try < 3; try++ {
+			// a read error that goes away when repeated is a transient fault of the read path (seen: the
+			// multi-file appendable's handle cache under concurrent readers), not lost or altered data
+			time.Sleep(5 * time.Millisecond)
+			if err2 := st.ReadTx(id, false, tx); err2 == nil {
+				transient++
+				err = nil
+			}
+		}
+		if err != nil {
+			add("R3/unreadable-tx", "ReadTx(%d) inside the recovered range 1..%d: %v", id, n, err)
+			return
+		}
+		h := tx.Header()
+		hdrs[id-1] = h
+		alh := h.Alh()
+		if rec := l.recs[id]; rec != nil && ackedBefore(acked, id) {
+			// R2: byte-identical to what was acknowledged
+			hb, _ := h.Bytes()
+			if !bytes.Equal(hb, rec.Hdr) || alh != rec.Alh {
+				add("R2/acknowledged-tx-changed", "tx %d header/alh differs from the acknowledged one", id)
+				continue
+			}
+			es := tx.Entries()
+			if len(es) != len(rec.Entries) {
+				add("R2/acknowledged-tx-changed", "tx %d has %d entries, acknowledged %d", id, len(es), len(rec.Entries))
+				continue
+			}
+			for k, e := range es {
+				w := rec.Entries[k]
+				if !bytes.Equal(e.Key(), w.Key) || !bytes.Equal(ledger.MDBytes(e.Metadata()), w.MD) || e.HVal() != sha256.Sum256(w.Value) {
+					add("R2/acknowledged-tx-changed", "tx %d entry %d differs from the acknowledged one", id, k)
+					continue
+				}
+				v, err := st.ReadValue(e)
+				if err != nil {
+					if errors.Is(err, store.ErrExpiredEntry) {
+						continue
+					}
+					add("R2/acknowledged-value-unreadable", "tx %d entry %d (%q): %v", id, k, w.Key, err)
+				} else if !bytes.Equal(v, w.Value) {
+					add("R2/acknowledged-value-changed", "tx %d entry %d (%q) value differs", id, k, w.Key)
+				}
+			}
+		} else {
+			// recovered beyond (or beside) the acknowledged ones: must be something the database really issued
+			if idx, ok := l.issued[id][alh]; !ok || idx >= ic.P {
+				add("R3/recovered-tx-never-issued", "recovered tx %d (alh %x) was never precommitted by the database before the crash point", id, alh[:6])
+			}
+		}
+	}
+	for _, p := range ledger.ChainProblems(hdrs) {
+		add("R3/"+p.Sig, "%s", p.Detail)
+	}
+	if cid, calh := st.CommittedAlh(); cid != n || (n > 0 && calh != hdrs[n-1].Alh()) {
+		add("R3/state-not-last-alh", "CommittedAlh reports (%d,%x)", cid, calh[:6])
+	}
+	// R4: a client holding a state verified before the crash can prove consistency
+	if n > 0 && len(acked) > 0 {
+		srcs := []ackMark{acked[len(acked)-1], acked[len(acked)/2]}
+		for _, src := range srcs {
+			if src.id > n {
+				continue
+			}
+			dual, err := st.DualProof(hdrs[src.id-1], hdrs[n-1])
+			if err != nil {
+				add("R4/dualproof-error", "DualProof(%d,%d): %v", src.id, n, err)
+				continue
+			}
+			if !store.VerifyDualProof(dual, src.id, n, src.alh, hdrs[n-1].Alh()) {
+				add("R4/consistency-proof-rejected", "a client trusting acknowledged state (%d,%x) cannot verify the recovered state %d", src.id, src.alh[:6], n)
+			}
+		}
+	}
+	// R5: the index agrees with the recovered log
+	mult := time.Duration(1)
+	if ic.Slow {
+		mult = 10
+	}
+	ctx, cancel := context.WithTimeout(context.Background(), mult*25*time.Second)
+	defer cancel()
+	if n > 0 {
+		ictx, icancel := context.WithTimeout(ctx, mult*6*time.Second)
+		err := st.WaitForIndexingUpto(ictx, n)
+		icancel()
+		if err != nil {
+			add("R5/indexing-does-not-catch-up", "WaitForIndexingUpto(%d): %v", n, err)
+		} else {
+			type ver struct {
+				tx    uint64
+				hval  [32]byte
+				gone  bool
+				vlen  int
+				entry *store.TxEntry
+			}
+			model := map[string]ver{}
+			for id := uint64(1); id <= n; id++ {
+				if err := st.ReadTx(id, false, tx); err != nil {
+					break
+				}
+				for _, e := range tx.Entries() {
+					md := e.Metadata()
+					if md != nil && md.NonIndexable() {
+						continue
+					}
+					gone := md != nil && (md.Deleted() || md.ExpiredAt(time.Date(2050, 1, 1, 0, 0, 0, 0, time.UTC)))
+					model[string(e.Key())] = ver{tx: id, hval: e.HVal(), gone: gone, vlen: e.VLen()}
+				}
+			}
+			keys := make([]string, 0, len(model))
+			for k := range model {
+				keys = append(keys, k)
+			}
+			sort.Strings(keys)
+			for _, k := range keys {
+				want := model[k]
+				ref, err := st.Get(ctx, []byte(k))
+				switch {
+				case want.gone:
+					if err == nil {
+						add("R5/index-serves-deleted-or-expired", "Get(%q) returns tx %d but the latest version (tx %d) is deleted/expired", k, ref.Tx(), want.tx)
+					}
+				case err != nil:
+					add("R5/index-misses-key", "Get(%q): %v; latest version is in tx %d", k, err, want.tx)
+				case ref.Tx() != want.tx || ref.HVal() != want.hval:
+					add("R5/index-stale-or-wrong", "Get(%q) returns tx %d, the recovered log says tx %d", k, ref.Tx(), want.tx)
+				}
+			}
+		}
+	}
+	// R6: the database accepts new commits, chained to the recovered history
+	if l.tf.Cfg.ExtAllow {
+		st.AllowCommitUpto(st.LastPrecommittedTxID())
+		st.DiscardPrecommittedTxsSince(n + 1)
+	}
+	pre2 := st.LastPrecommittedTxID()
+	go func() {
+		// with external allowance the commit needs to be allowed once precommitted
+		if l.tf.Cfg.ExtAllow {
+			for i := 0; i < 2000; i++ {
+				st.AllowCommitUpto(st.LastPrecommittedTxID())
+				time.Sleep(time.Millisecond)
+				if ctx.Err() != nil {
+					return
+				}
+			}
+		}
+	}()
+	ntx, err := st.NewWriteOnlyTx(ctx)
+	if err == nil {
+		ntx.Set([]byte("after-crash"), nil, []byte("v"))
+		var hdr *store.TxHeader
+		cctx, ccancel := context.WithTimeout(ctx, mult*8*time.Second)
+		hdr, err = ntx.AsyncCommit(cctx) // the commit path alone; indexing is judged by R5
+		ccancel()
+		if err == nil {
+			if hdr.ID != pre2+1 {
+				add("R6/new-commit-wrong-id", "new commit got id %d, precommitted frontier was %d", hdr.ID, pre2)
+			}
+			if hdr.ID == n+1 && n > 0 && hdr.PrevAlh != hdrs[n-1].Alh() {
+				add("R6/new-commit-not-chained", "new commit %d does not chain to the recovered tx %d", hdr.ID, n)
+			}
+		}
+	}
+	if err != nil {
+		add("R6/new-commit-refused", "the recovered database refuses a new commit: %v", err)
+	}
+	return
+}
+
+func ackedBefore(acked []ackMark, id uint64) bool {
+	for _, a := range acked {
+		if a.id == id {
+			return true
+		}
+	}
+	return false
+}
+
+func sgn(x int64) int {
+	switch {
+	case x < 0:
+		return -1
+	case x > 0:
+		return 1
+	}
+	return 0
+}
+
+func init() {
+	fw.RegisterIsolated("c03-trace", genTrace)
+	fw.RegisterChild("c03-image", func(setup []byte, scratch string) func(i int, data []byte) []byte {
+		return func(i int, data []byte) []byte { return checkImage(scratch, i, data) }
+	})
+}
+
+// ---- parent ----
+
+func replay(c *fw.Ctx) {
+	b, err := os.ReadFile(filepath.Join(c.ReplayPath, "case.json"))
+	if err != nil {
+		c.Inconclusive("replay: " + err.Error())
+		return
+	}
+	var ic imgCase
+	json.Unmarshal(b, &ic)
+	ic.Trace = c.ReplayPath // trace.gob / ledger.gob are stored next to the case
+	b, _ = json.Marshal(ic)
+	var res imgResult
+	json.Unmarshal(checkImage(c.Dir("replay"), 0, b), &res)
+	c.Eval(1)
+	c.Distinct("replay/" + res.Branch)
+	c.Distinct("replay/info/" + res.Info.KindAtP)
+	fmt.Printf("replay: %+v\n", res.Info)
+	for _, p := range res.Problems {
+		fmt.Printf("  problem %s: %s\n", p.Sig, p.Detail)
+		c.Violation(p.Sig, p.Detail, nil)
+	}
+	if res.Err != "" {
+		c.Inconclusive(res.Err)
+	}
+}
+
+func Run(c *fw.Ctx) {
+	c.Level = "fault_enumeration"
+	if c.ReplayPath != "" {
+		replay(c)
+		return
+	}
+	c.Rule = "traces = real synced workloads journaled at os.File level (writes with offsets and bytes, fsyncs, dir fsyncs, removals, renames) with ack/issued markers; a case = (trace, journal index p, loss model M0 kill / M1 nothing un-fsynced / M2 per-file prefix + torn last write); on each materialized image: R1 open, R2 acknowledged txs identical, R3 dense chained frontier made only of issued txs, R4 dual proof from an acknowledged state, R5 index agrees with the log, R6 new commit; distinct = (journal event kind at p × model × recovery shape × image traits)"
+	c.Assume("a crash image contains, per file, its fsynced content plus (M2) a prefix of the later writes; arbitrary subsets of un-fsynced writes are not generated (the property quantifies over per-file prefixes)")
+	c.Assume("directory entries become durable at the directory fsync that follows (strict POSIX); M0 keeps every issued write")
+	r := c.Rand("c03/traces")
+	ntr := c.N(3, 24)
+	if v := os.Getenv("VERIF_C03_TRACES"); v != "" {
+		fmt.Sscan(v, &ntr) // development aid
+	}
+	root := c.Dir("traces")
+	var tcases [][]byte
+	var cfgs []traceCfg
+	for i := 0; i < ntr; i++ {
+		cf := traceCfg{
+			Name: fmt.Sprintf("t%d", i), Seed: c.Seed*1000 + int64(i),
+			Embedded: r.IntN(3) == 0, HdrVersion: r.IntN(2), IOConc: 1 + r.IntN(3),
+			MaxActive:  []int{3, 8, 100}[r.IntN(3)],
+			FileSize:   []int{1024, 2048, 4096}[r.IntN(3)],
+			WriteBuf:   []int{512, 1024, 4096}[r.IntN(3)],
+			Committers: 2 + r.IntN(5), Txs: c.N(90, 240),
+			ExtAllow: i%3 == 2, Compact: i%2 == 1, Reopen: i%3 != 0,
+			Dir: filepath.Join(root, fmt.Sprintf("t%d", i)),
+		}
+		if c.Thorough() && i%6 == 5 {
+			cf.FaultEvery = 37 + r.IntN(60)
+		}
+		if cf.Embedded {
+			cf.IOConc = 1
+		}
+		if cf.ExtAllow {
+			cf.MaxActive = 100
+		}
+		cfgs = append(cfgs, cf)
+		b, _ := json.Marshal(cf)
+		tcases = append(tcases, b)
+	}
+	c.RunIsolated("c03-trace", tcases, fw.CasesOpts{Workers: 6, CaseTimout: 5 * time.Minute})
+
+	// crash points
+	var cases [][]byte
+	var meta []imgCase
+	pr := c.Rand("c03/points")
+	for _, cf := range cfgs {
+		tr, err := fsjournal.Load(filepath.Join(cf.Dir, "trace.gob"))
+		if err != nil {
+			c.Inconclusive("trace " + cf.Name + " missing: " + err.Error())
+			continue
+		}
+		pts := map[int]bool{}
+		n := len(tr.Events)
+		if c.Thorough() {
+			for p := 0; p <= n; p++ {
+				pts[p] = true
+			}
+		} else {
+			for i, e := range tr.Events {
+				interesting := e.Op == hook.OpSync || e.Op == hook.OpCreate || e.Op == hook.OpSyncDir || e.Op == hook.OpRename || e.Op == hook.OpRemove || e.Op == hook.OpRemoveAll ||
+					(e.Op == hook.OpMark && e.Kind != "issued")
+				if interesting && pr.IntN(3) == 0 {
+					pts[i] = true
+					pts[i+1] = true
+				}
+			}
+			for k := 0; k < 150; k++ {
+				pts[pr.IntN(n+1)] = true
+			}
+		}
+		ps := make([]int, 0, len(pts))
+		for p := range pts {
+			ps = append(ps, p)
+		}
+		sort.Ints(ps)
+		for _, p := range ps {
+			models := []int{0, 1, 2, 2}
+			if c.Thorough() {
+				models = []int{0, 1, 2, 2, 2}
+			}
+			for k, m := range models {
+				ic := imgCase{Trace: cf.Dir, P: p, Model: m, Seed: uint64(c.Seed)*7919 + uint64(k)}
+				b, _ := json.Marshal(ic)
+				cases = append(cases, b)
+				meta = append(meta, ic)
+			}
+		}
+	}
+	c.Set("crash_images_planned", len(cases))
+	sampled := 0
+	var retry [][]byte
+	var retryMeta []imgCase
+	var handle func(cases [][]byte, meta []imgCase, final bool) func(rs fw.CaseResult)
+	handle = func(cases [][]byte, meta []imgCase, final bool) func(rs fw.CaseResult) {
+		return func(rs fw.CaseResult) {
+			ic := meta[rs.Index]
+			where := fmt.Sprintf("trace=%s p=%d model=%s seed=%d", filepath.Base(ic.Trace), ic.P, fsjournal.Model(ic.Model), ic.Seed)
+			switch {
+			case rs.TimedOut:
+				c.Inconclusive("image check timed out: " + where)
+				return
+			case rs.Crashed:
+				sig := fw.PanicSignature(rs.Text)
+				c.Violation("R1/crash-on-recovery/"+sig, fmt.Sprintf("the process died while recovering or reading a crash image (%s): %s", where, firstLines(rs.Text, 10)),
+					map[string][]byte{"case.json": cases[rs.Index], "stderr.txt": []byte(rs.Text)})
+				return
+			}
+			var res imgResult
+			if err := json.Unmarshal(rs.Out, &res); err != nil || res.Err != "" {
+				c.Inconclusive(fmt.Sprintf("image %s: %v %s", where, err, res.Err))
+				return
+			}
+			if res.TimedOut && !final {
+				// a time limit fired on a loaded machine: not a verdict; re-run alone with limits ×10
+				ic.Slow = true
+				b, _ := json.Marshal(ic)
+				retry = append(retry, b)
+				retryMeta = append(retryMeta, ic)
+				c.Count("time_limit_reruns", 1)
+				return
+			}
+			c.Eval(1)
+			c.Count("images_"+fsjournal.Model(ic.Model).String(), 1)
+			c.Distinct(fmt.Sprintf("at=%s/%s/%s/torn=%v/dirop=%v", res.Info.KindAtP, fsjournal.Model(ic.Model), res.Branch, res.Info.TornWrites > 0, res.Info.PendingDirOp > 0))
+			if sampled < 4 && res.Acked > 0 {
+				sampled++
+				c.Sample(map[string]any{"case": where, "event_at_p": res.Info.KindAtP, "files": res.Info.Files, "torn_writes": res.Info.TornWrites, "dropped_writes": res.Info.DroppedWrite, "acked_before_p": res.Acked, "recovered_frontier": res.Frontier, "recovery": res.Branch})
+			}
+			for _, p := range res.Problems {
+				files := map[string][]byte{"case.json": cases[rs.Index]}
+				if tb, err := os.ReadFile(filepath.Join(ic.Trace, "trace.gob")); err == nil && len(tb) < 64<<20 {
+					files["trace.gob"] = tb
+					files["ledger.gob"], _ = os.ReadFile(filepath.Join(ic.Trace, "ledger.gob"))
+				}
+				c.Violation(p.Sig, fmt.Sprintf("[%s] %s", where, p.Detail), files)
+			}
+		}
+	}
+	c.RunCases("c03-image", nil, cases, fw.CasesOpts{Workers: 15, CaseTimout: 3 * time.Minute}, handle(cases, meta, false))
+	if len(retry) > 0 {
+		c.RunCases("c03-image", nil, retry, fw.CasesOpts{Workers: 2, CaseTimout: 10 * time.Minute}, handle(retry, retryMeta, true))
+	}
+}
+
+func firstLines(s string, n int) string {
+	out := ""
+	for i, line := range bytes.SplitN([]byte(s), []byte("\n"), n+1) {
+		if i >= n {
+			break
+		}
+		out += string(line) + "\n"
+	}
+	return out
+}
